@@ -49,6 +49,15 @@ pub struct WorkerReport {
 
 static CUR_RUN: AtomicU64 = AtomicU64::new(u64::MAX);
 static CUR_START_MS: AtomicU64 = AtomicU64::new(0);
+static CUR_START_CPU_MS: AtomicU64 = AtomicU64::new(0);
+
+fn process_cpu_ms() -> u64 {
+    let mut ts = libc::timespec { tv_sec: 0, tv_nsec: 0 };
+    unsafe {
+        libc::syscall(libc::SYS_clock_gettime, libc::CLOCK_PROCESS_CPUTIME_ID, &mut ts as *mut libc::timespec);
+    }
+    ts.tv_sec as u64 * 1000 + ts.tv_nsec as u64 / 1_000_000
+}
 
 fn mono_ms() -> u64 {
     let mut ts = libc::timespec { tv_sec: 0, tv_nsec: 0 };
@@ -58,6 +67,18 @@ fn mono_ms() -> u64 {
     }
     ts.tv_sec as u64 * 1000 + ts.tv_nsec as u64 / 1_000_000
 }
+
+fn thread_cpu_ms() -> u64 {
+    let mut ts = libc::timespec { tv_sec: 0, tv_nsec: 0 };
+    unsafe {
+        libc::syscall(libc::SYS_clock_gettime, libc::CLOCK_THREAD_CPUTIME_ID, &mut ts as *mut libc::timespec);
+    }
+    ts.tv_sec as u64 * 1000 + ts.tv_nsec as u64 / 1_000_000
+}
+
+/// CPU-time budget of one simulated run (expected: well under 100 ms). Exceeding it is reported as
+/// "does not terminate promptly"; CPU time, not wall time, so machine load cannot raise it.
+pub const SLOW_RUN_CPU_MS: u64 = 3000;
 
 pub fn mono_secs_f64() -> f64 {
     mono_ms() as f64 / 1000.0
@@ -73,6 +94,8 @@ pub struct WorkerArgs {
     pub only_scenario: Option<String>,
     pub only_run: Option<u64>,
     pub only_first: Option<u64>,
+    /// continue at (scenario, run) — used after a worker died on an earlier run
+    pub resume: Option<(String, u64)>,
     pub trace_first: u64,
     pub watchdog_secs: u64,
 }
@@ -81,6 +104,30 @@ pub fn set_rlimit_as(bytes: u64) {
     unsafe {
         let lim = libc::rlimit { rlim_cur: bytes, rlim_max: bytes };
         libc::setrlimit(libc::RLIMIT_AS, &lim);
+    }
+}
+
+#[derive(Default)]
+struct Accum {
+    rep: WorkerReport,
+    nontrivial: BTreeSet<u64>,
+    states: BTreeSet<u64>,
+    transitions: BTreeSet<u64>,
+    viol: BTreeMap<(String, String), VRec>,
+}
+
+impl Accum {
+    fn emit(&mut self) {
+        let mut rep = std::mem::take(&mut self.rep);
+        rep.nontrivial = std::mem::take(&mut self.nontrivial).into_iter().collect();
+        rep.states = std::mem::take(&mut self.states).into_iter().collect();
+        rep.transitions = std::mem::take(&mut self.transitions).into_iter().collect();
+        rep.violations = std::mem::take(&mut self.viol).into_values().collect();
+        let out = serde_json::to_vec(&rep).unwrap();
+        let stdout = std::io::stdout();
+        let mut l = stdout.lock();
+        let _ = l.write_all(&out);
+        let _ = l.flush();
     }
 }
 
@@ -94,29 +141,36 @@ pub fn worker_main(a: WorkerArgs) -> i32 {
     };
     crate::exec::install_panic_hook();
     let hb = a.heartbeat.as_ref().and_then(|p| std::fs::OpenOptions::new().create(true).write(true).truncate(true).open(p).ok());
-    // watchdog
+    let acc = std::sync::Arc::new(std::sync::Mutex::new(Accum::default()));
+    {
+        let mut g = acc.lock().unwrap();
+        g.rep.clock_jump_min = i64::MAX;
+        g.rep.clock_jump_max = i64::MIN;
+    }
+    // watchdog: on expiry, emit what has been gathered so far and leave with code 3
     let wd = a.watchdog_secs;
+    let acc_w = acc.clone();
     std::thread::spawn(move || loop {
-        std::thread::sleep(std::time::Duration::from_millis(500));
+        std::thread::sleep(std::time::Duration::from_millis(250));
         let r = CUR_RUN.load(Ordering::SeqCst);
         if r == u64::MAX {
             continue;
         }
         let st = CUR_START_MS.load(Ordering::SeqCst);
-        if mono_ms().saturating_sub(st) > wd * 1000 {
+        let cpu0 = CUR_START_CPU_MS.load(Ordering::SeqCst);
+        // CPU budget (load-independent) or a generous wall limit (catches blocked, idle hangs)
+        if process_cpu_ms().saturating_sub(cpu0) > wd * 1000 || mono_ms().saturating_sub(st) > wd * 12_000 {
             eprintln!("WATCHDOG run={}", r);
+            if let Ok(mut g) = acc_w.lock() {
+                g.emit();
+            }
             std::process::exit(3);
         }
     });
 
-    let mut rep = WorkerReport::default();
-    rep.clock_jump_min = i64::MAX;
-    rep.clock_jump_max = i64::MIN;
-    let mut nontrivial: BTreeSet<u64> = BTreeSet::new();
-    let mut states: BTreeSet<u64> = BTreeSet::new();
-    let mut transitions: BTreeSet<u64> = BTreeSet::new();
-    let mut viol: BTreeMap<(String, String), VRec> = BTreeMap::new();
     let mut global_idx: u64 = 0;
+    let mut slow_runs = 0u32;
+    let mut resuming = a.resume.is_some();
     for (scenario, count) in (def.scenarios)(a.tier) {
         if let Some(s) = &a.only_scenario {
             if s != scenario {
@@ -125,6 +179,15 @@ pub fn worker_main(a: WorkerArgs) -> i32 {
             }
         }
         let mut i = a.start;
+        if resuming {
+            let (rs, rr) = a.resume.as_ref().unwrap();
+            if rs != scenario {
+                global_idx += count;
+                continue;
+            }
+            resuming = false;
+            i = *rr;
+        }
         let limit = a.only_first.map(|f| f.min(count)).unwrap_or(count);
         while i < limit {
             if let Some(r) = a.only_run {
@@ -135,6 +198,7 @@ pub fn worker_main(a: WorkerArgs) -> i32 {
             }
             let gi = global_idx + i;
             CUR_START_MS.store(mono_ms(), Ordering::SeqCst);
+            CUR_START_CPU_MS.store(process_cpu_ms(), Ordering::SeqCst);
             CUR_RUN.store(gi, Ordering::SeqCst);
             if let Some(f) = &hb {
                 let line = format!("{:<24} {:>12}\n", scenario, i);
@@ -143,68 +207,82 @@ pub fn worker_main(a: WorkerArgs) -> i32 {
             let mut rng = Rng::for_run(a.seed, &format!("{}:{}", def.id, scenario), i);
             let case = (def.gen)(scenario, &mut rng, a.tier, i);
             let mut st = RunStats::default();
-            let vs = (def.eval)(scenario, &case, &mut st, a.tier);
-            rep.runs += 1;
-            rep.evaluations += st.evaluations.max(1);
+            let cpu0 = thread_cpu_ms();
+            let mut vs = (def.eval)(scenario, &case, &mut st, a.tier);
+            let cpu = thread_cpu_ms().saturating_sub(cpu0);
+            CUR_RUN.store(u64::MAX, Ordering::SeqCst);
+            if cpu > SLOW_RUN_CPU_MS && !def.slow_ok {
+                slow_runs += 1;
+                vs.push(Violation {
+                    property: def.id,
+                    class: format!("{}/slow-run", def.id),
+                    key: scenario.to_string(),
+                    detail: format!("run {} of scenario {} needed {} ms of CPU time (budget {} ms): some call does not terminate promptly", i, scenario, cpu, SLOW_RUN_CPU_MS),
+                });
+            }
+            {
+            let mut g = acc.lock().unwrap();
+            let g = &mut *g;
+            g.rep.runs += 1;
+            g.rep.evaluations += st.evaluations.max(1);
             if let Some(h) = st.nontrivial {
-                nontrivial.insert(h);
+                g.nontrivial.insert(h);
             }
             for h in st.nontrivial_many.drain(..) {
-                nontrivial.insert(h);
+                g.nontrivial.insert(h);
             }
             for s in st.states.drain(..) {
-                states.insert(s);
+                g.states.insert(s);
             }
             for s in st.transitions.drain(..) {
-                transitions.insert(s);
+                g.transitions.insert(s);
             }
             for (k, n) in st.fired.iter() {
-                *rep.fired.entry(k.to_string()).or_insert(0) += n;
+                *g.rep.fired.entry(k.to_string()).or_insert(0) += n;
             }
             for (k, n) in st.counters.iter() {
-                *rep.counters.entry(k.to_string()).or_insert(0) += n;
+                *g.rep.counters.entry(k.to_string()).or_insert(0) += n;
             }
-            rep.media_secs += st.media_secs;
-            if st.clock_jumps.0 <= st.clock_jumps.1 {
-                rep.clock_jump_min = rep.clock_jump_min.min(st.clock_jumps.0);
-                rep.clock_jump_max = rep.clock_jump_max.max(st.clock_jumps.1);
+            g.rep.media_secs += st.media_secs;
+            if st.clock_jumps.0 <= st.clock_jumps.1 && (st.clock_jumps != (0, 0)) {
+                g.rep.clock_jump_min = g.rep.clock_jump_min.min(st.clock_jumps.0);
+                g.rep.clock_jump_max = g.rep.clock_jump_max.max(st.clock_jumps.1);
             }
             if i < a.trace_first {
-                rep.trace_hashes.push((scenario.to_string(), i, st.trace_hash));
+                g.rep.trace_hashes.push((scenario.to_string(), i, st.trace_hash));
             }
-            if rep.samples.len() < 2 && st.nontrivial.is_some() && a.start == 0 {
-                rep.samples.push(checks::sample_view(scenario, &case));
+            if g.rep.samples.len() < 2 && st.nontrivial.is_some() && a.start == 0 {
+                g.rep.samples.push(checks::sample_view(scenario, &case));
             }
             for vi in vs {
                 let k = (vi.class.clone(), vi.key.clone());
-                match viol.get_mut(&k) {
+                match g.viol.get_mut(&k) {
                     Some(r) => r.count += 1,
                     None => {
                         let case_json = match st.violating_case.take() {
                             Some(c) => c,
                             None => serde_json::to_value(&case).unwrap(),
                         };
-                        viol.insert(
+                        g.viol.insert(
                             k,
                             VRec { scenario: scenario.to_string(), run: i, property: vi.property.to_string(), class: vi.class, key: vi.key, detail: vi.detail, case: case_json, count: 1 },
                         );
                     }
                 }
             }
+            }
             i += a.stride;
+            if slow_runs >= 3 {
+                // no point in grinding through a batch in which runs take seconds
+                eprintln!("ABORT: {} slow runs", slow_runs);
+                acc.lock().unwrap().emit();
+                return 0;
+            }
         }
         global_idx += count;
     }
     CUR_RUN.store(u64::MAX, Ordering::SeqCst);
-    rep.nontrivial = nontrivial.into_iter().collect();
-    rep.states = states.into_iter().collect();
-    rep.transitions = transitions.into_iter().collect();
-    rep.violations = viol.into_values().collect();
-    let out = serde_json::to_vec(&rep).unwrap();
-    let stdout = std::io::stdout();
-    let mut l = stdout.lock();
-    let _ = l.write_all(&out);
-    let _ = l.flush();
+    acc.lock().unwrap().emit();
     0
 }
 
@@ -246,12 +324,6 @@ fn self_exe() -> PathBuf {
     std::env::current_exe().expect("current_exe")
 }
 
-struct Spawned {
-    child: std::process::Child,
-    hb: PathBuf,
-    start: u64,
-}
-
 fn spawn_worker(id: &str, tier: Tier, seed: u64, start: u64, stride: u64, hb: &Path, extra: &[String]) -> std::io::Result<std::process::Child> {
     let mut c = Command::new(self_exe());
     c.arg("--worker").arg(id).arg(tier.name()).arg(seed.to_string()).arg(start.to_string()).arg(stride.to_string()).arg(hb);
@@ -279,11 +351,60 @@ fn read_hb(p: &Path) -> Option<(String, u64)> {
 pub fn run_batch(def: &CheckDef, tier: Tier, seed: u64, workers: u64, extra: &[String]) -> Result<Merged, String> {
     let work = Path::new(VERIF).join("work");
     std::fs::create_dir_all(&work).map_err(|e| e.to_string())?;
-    let mut sp: Vec<Spawned> = Vec::new();
+    // one thread per worker slot; a slot respawns its worker after a death or hang and continues behind the fatal run
+    let mut handles = Vec::new();
     for w in 0..workers {
         let hb = work.join(format!("hb-{}-{}-{}", def.id, std::process::id(), w));
-        let child = spawn_worker(def.id, tier, seed, w, workers, &hb, extra).map_err(|e| format!("spawn: {}", e))?;
-        sp.push(Spawned { child, hb, start: w });
+        let id = def.id.to_string();
+        let extra: Vec<String> = extra.to_vec();
+        handles.push(std::thread::spawn(move || -> Result<(Vec<WorkerReport>, Vec<(String, u64, String)>), String> {
+            let mut reports = Vec::new();
+            let mut deaths = Vec::new();
+            let mut resume: Option<(String, u64)> = None;
+            for _attempt in 0..6 {
+                let mut ex = extra.clone();
+                if let Some((sc, r)) = &resume {
+                    ex.push(format!("--resume={},{}", sc, r));
+                }
+                let _ = std::fs::remove_file(&hb);
+                let child = spawn_worker(&id, tier, seed, w, workers, &hb, &ex).map_err(|e| format!("spawn: {}", e))?;
+                let out = child.wait_with_output().map_err(|e| e.to_string())?;
+                let code = out.status.code();
+                if code == Some(0) || code == Some(3) {
+                    match serde_json::from_slice::<WorkerReport>(&out.stdout) {
+                        Ok(r) => reports.push(r),
+                        Err(e) => {
+                            if code == Some(0) {
+                                return Err(format!("worker report does not parse: {}", e));
+                            }
+                        }
+                    }
+                }
+                if code == Some(0) {
+                    let _ = std::fs::remove_file(&hb);
+                    return Ok((reports, deaths));
+                }
+                let stderr_text = String::from_utf8_lossy(&out.stderr).to_string();
+                if stderr_text.contains("HARNESS PANIC") {
+                    return Err(format!("the simulator itself panicked: {}", stderr_text.lines().find(|l| l.contains("HARNESS PANIC")).unwrap_or("")));
+                }
+                let kind = if code == Some(3) {
+                    "hang (watchdog)".to_string()
+                } else {
+                    format!("process death ({:?}; {})", out.status, String::from_utf8_lossy(&out.stderr).lines().last().unwrap_or(""))
+                };
+                match read_hb(&hb) {
+                    Some((sc, run)) => {
+                        deaths.push((sc.clone(), run, kind));
+                        resume = Some((sc, run + workers));
+                    }
+                    None => return Err(format!("worker died without heartbeat: {} / stderr: {}", kind, String::from_utf8_lossy(&out.stderr))),
+                }
+            }
+            let _ = std::fs::remove_file(&hb);
+            deaths.push(("-".to_string(), 0, "worker slot gave up after 6 deaths; its remaining runs were not executed".to_string()));
+            Ok((reports, deaths))
+        }));
     }
     let mut merged = WorkerReport::default();
     merged.clock_jump_min = i64::MAX;
@@ -293,21 +414,10 @@ pub fn run_batch(def: &CheckDef, tier: Tier, seed: u64, workers: u64, extra: &[S
     let mut states: BTreeSet<u64> = BTreeSet::new();
     let mut transitions: BTreeSet<u64> = BTreeSet::new();
     let mut viol: BTreeMap<(String, String), VRec> = BTreeMap::new();
-    // read all outputs concurrently (threads) so that no pipe fills up
-    let mut handles = Vec::new();
-    for s in sp {
-        handles.push(std::thread::spawn(move || {
-            let Spawned { child, hb, start } = s;
-            let out = child.wait_with_output();
-            (out, hb, start)
-        }));
-    }
     for h in handles {
-        let (out, hb, _start) = h.join().map_err(|_| "join".to_string())?;
-        let out = out.map_err(|e| e.to_string())?;
-        let code = out.status.code();
-        if code == Some(0) {
-            let r: WorkerReport = serde_json::from_slice(&out.stdout).map_err(|e| format!("worker report does not parse: {}", e))?;
+        let (reports, d) = h.join().map_err(|_| "join".to_string())??;
+        deaths.extend(d);
+        for r in reports {
             merged.runs += r.runs;
             merged.evaluations += r.evaluations;
             merged.media_secs += r.media_secs;
@@ -342,18 +452,7 @@ pub fn run_batch(def: &CheckDef, tier: Tier, seed: u64, workers: u64, extra: &[S
                     }
                 }
             }
-        } else {
-            let kind = if code == Some(3) {
-                "hang (watchdog)".to_string()
-            } else {
-                format!("process death ({:?}; {})", out.status, String::from_utf8_lossy(&out.stderr).lines().last().unwrap_or(""))
-            };
-            match read_hb(&hb) {
-                Some((sc, run)) => deaths.push((sc, run, kind)),
-                None => return Err(format!("worker died without heartbeat: {} / stderr: {}", kind, String::from_utf8_lossy(&out.stderr))),
-            }
         }
-        let _ = std::fs::remove_file(&hb);
     }
     merged.nontrivial = nontrivial.into_iter().collect();
     merged.states = states.into_iter().collect();
@@ -514,15 +613,17 @@ pub fn driver_main(id: &str, tier: Tier) -> i32 {
             return 2;
         }
     };
-    let mut a: Vec<_> = merged.rep.trace_hashes.clone();
-    let mut b: Vec<_> = det.rep.trace_hashes.clone();
-    a.sort();
-    b.sort();
-    let det_pairs = a.len().min(b.len()) as u64;
-    if a != b {
-        let diff = a.iter().zip(b.iter()).find(|(x, y)| x != y);
-        eprintln!("HARNESS ERROR: nondeterminism: event-log hashes differ between two executions: {:?}", diff);
-        return 2;
+    let a: BTreeMap<(String, u64), u64> = merged.rep.trace_hashes.iter().map(|(s, i, h)| ((s.clone(), *i), *h)).collect();
+    let b: BTreeMap<(String, u64), u64> = det.rep.trace_hashes.iter().map(|(s, i, h)| ((s.clone(), *i), *h)).collect();
+    let mut det_pairs = 0u64;
+    for (k, h) in &a {
+        if let Some(h2) = b.get(k) {
+            det_pairs += 1;
+            if h != h2 {
+                eprintln!("HARNESS ERROR: nondeterminism: event-log hash of run {:?} differs between two executions ({:x} vs {:x})", k, h, h2);
+                return 2;
+            }
+        }
     }
 
     let mut new_violations: Vec<VRec> = Vec::new();
@@ -534,32 +635,55 @@ pub fn driver_main(id: &str, tier: Tier) -> i32 {
             new_violations.push(v.clone());
         }
     }
-    // process deaths / hangs
+    // process deaths / hangs: one report per kind, for the smallest run; confirmed alone in a fresh process
+    let mut by_kind: BTreeMap<String, (String, u64, String, u64)> = BTreeMap::new();
     for (sc, run, kind) in &merged.deaths {
-        // confirm alone
+        let key = slug(kind.split('(').next().unwrap_or("death"));
+        let e = by_kind.entry(key).or_insert((sc.clone(), *run, kind.clone(), 0));
+        e.3 += 1;
+        if (sc.as_str(), *run) < (e.0.as_str(), e.1) {
+            e.0 = sc.clone();
+            e.1 = *run;
+            e.2 = kind.clone();
+        }
+    }
+    for (key, (sc, run, kind, n)) in by_kind {
+        if sc == "-" {
+            eprintln!("note: {}", kind);
+            continue;
+        }
         let confirm = run_batch(def, tier, seed, 1, &[format!("--only-scenario={}", sc), format!("--only-run={}", run)]);
         let confirmed = match &confirm {
             Ok(m) => !m.deaths.is_empty(),
             Err(_) => true,
         };
-        let mut rng = Rng::for_run(seed, &format!("{}:{}", def.id, sc), *run);
-        let case = (def.gen)(sc, &mut rng, tier, *run);
+        let mut rng = Rng::for_run(seed, &format!("{}:{}", def.id, sc), run);
+        let case = (def.gen)(&sc, &mut rng, tier, run);
         let class = format!("{}/process-death-or-hang", id);
-        let key = slug(kind.split('(').next().unwrap_or("death"));
         let rec = VRec {
             scenario: sc.clone(),
-            run: *run,
+            run,
             property: id.to_string(),
             class: class.clone(),
             key: key.clone(),
-            detail: format!("worker process ended abnormally while executing run {} of scenario {}: {} (confirmed alone: {})", run, sc, kind, confirmed),
+            detail: format!("worker process ended abnormally while executing run {} of scenario {}: {} (confirmed alone in a fresh process: {}; {} runs of this batch ended this way)", run, sc, kind, confirmed, n),
             case: serde_json::to_value(&case).unwrap(),
-            count: 1,
+            count: n,
         };
         if known_match(&findings, id, &class, &key).is_some() {
-            *known_seen.entry(format!("{} / {}", class, key)).or_insert(0) += 1;
-        } else {
+            *known_seen.entry(format!("{} / {}", class, key)).or_insert(0) += n;
+        } else if confirmed {
             new_violations.push(rec);
+        } else {
+            // the run completes alone: take whatever it reports there
+            eprintln!("note: a worker ended on run {} of {} ({}) but the run completes alone; using the result of the solo execution", run, sc, kind);
+            if let Ok(m) = confirm {
+                for v in m.rep.violations {
+                    if known_match(&findings, id, &v.class, &v.key).is_none() && !new_violations.iter().any(|x| x.class == v.class && x.key == v.key) {
+                        new_violations.push(v);
+                    }
+                }
+            }
         }
     }
 
